@@ -3,7 +3,7 @@
    and that Drop runs however a task ends (also on a panic), are runtime behaviour: partial. *)
 From Coq Require Import List Arith.
 Import ListNotations.
-From BC Require Import Sys.Limit.
+From BC Require Import Sys.Limit Sys.LimitRun.
 
 (* 1. In every reachable state, permits + connections being served + the permit the listener may
       hold add up to the configured maximum. *)
@@ -33,8 +33,28 @@ Theorem C15_full_capacity_again : forall max es s, run (init max) es = Some s ->
 Proof. exact full_capacity_again. Qed.
 Print Assumptions C15_full_capacity_again.
 
+(* 5. The model that the check compares with the real server — clients with identities opening connections,
+      served connections ending in any way, waiting clients giving up, the listener and the handlers running as
+      far as they can after every action — only ever takes steps of the transition system above: every world it
+      reaches is a reachable state (so 1-4 apply to it), the served connections are exactly the ones counted, and
+      never more than the maximum are served. *)
+Theorem C15_eager_scheduler_is_a_run : forall max acts,
+  run (init max) (rev (trace (play max acts))) = Some (sy (play max acts)) /\
+  length (served (play max acts)) = serving (sy (play max acts)).
+Proof. exact world_reachable. Qed.
+Print Assumptions C15_eager_scheduler_is_a_run.
+
+Theorem C15_served_never_above_max : forall max acts, length (served (play max acts)) <= max.
+Proof. exact play_limit. Qed.
+Print Assumptions C15_served_never_above_max.
+
 Example C15_example :
   run (init 2) [Acquire; Accept; Acquire; Accept; HandlerEnd ByPanic; Acquire; Accept; HandlerEnd ByProtocolError; HandlerEnd ByClientClose]
   = Some (mkSys 2 LWaiting 0) /\
   run (init 2) [Acquire; Accept; Acquire; Accept; Acquire] = None.
 Proof. split; reflexivity. Qed.
+
+Example C15_eager_example :
+  let w := play 2 [AOpen; AOpen; AOpen; AOpen; AEndServed 0 ByPanic; ADropPending 0; AEndServed 1 ByProtocolError] in
+  served w = [1] /\ alive_ids (pend w) = [] /\ permits (sy w) = 0 /\ listener (sy w) = LHolding.
+Proof. vm_compute. repeat split. Qed.
